@@ -143,6 +143,8 @@ bool vp_combinators(int x, int* p, vp_S sv, char const* str)
   r = param_matches(le(1.0), std::ref(d)) && param_matches(gt(1.0), std::ref(d)) && param_matches(ge(1.0), std::ref(d)) && r;
   r = param_matches(re("a", std::regex_constants::icase, std::regex_constants::match_not_bol), std::ref(str)) && r;
   r = param_matches(re("a", std::regex_constants::match_not_eol), std::ref(str)) && r;
+  std::unique_ptr<int> up;
+  r = param_matches(*vp_abs<1>{}, std::ref(up)) && r;
   std::string stdstr(str);
   r = param_matches(re("a"), std::ref(stdstr)) && r;
   return r;
